@@ -221,7 +221,7 @@ func (s *Translator) buildBoundEndpointTraversalPattern(partFrame *Frame, traver
 	}
 
 	var (
-		previousFrame = partFrame.Previous
+		previousFrame = s.previousFrameSource(partFrame)
 		nextSelect    = pgsql.Select{
 			Projection: traversalStep.Projection,
 			From: []pgsql.FromClause{{
@@ -400,7 +400,7 @@ func (s *Translator) buildTraversalPatternRoot(partFrame *Frame, traversalStep *
 		// can safely reference it. No partitioning needed for this branch.
 		nextSelect.From = append(nextSelect.From, pgsql.FromClause{
 			Source: pgsql.TableReference{
-				Name: pgsql.CompoundIdentifier{partFrame.Previous.Binding.Identifier},
+				Name: pgsql.CompoundIdentifier{s.previousFrameSource(partFrame).Binding.Identifier},
 			},
 			Joins: []pgsql.Join{{
 				Table: pgsql.TableReference{
@@ -474,7 +474,7 @@ func (s *Translator) buildTraversalPatternRoot(partFrame *Frame, traversalStep *
 
 		nextSelect.From = append(nextSelect.From, pgsql.FromClause{
 			Source: pgsql.TableReference{
-				Name: pgsql.CompoundIdentifier{partFrame.Previous.Binding.Identifier},
+				Name: pgsql.CompoundIdentifier{s.previousFrameSource(partFrame).Binding.Identifier},
 			},
 			Joins: []pgsql.Join{{
 				Table: pgsql.TableReference{
@@ -570,7 +570,7 @@ func (s *Translator) buildTraversalPatternStep(partFrame *Frame, traversalStep *
 	if partFrame.Previous != nil {
 		nextSelect.From = append(nextSelect.From, pgsql.FromClause{
 			Source: pgsql.TableReference{
-				Name: pgsql.CompoundIdentifier{partFrame.Previous.Binding.Identifier},
+				Name: pgsql.CompoundIdentifier{s.previousFrameSource(partFrame).Binding.Identifier},
 			},
 			Joins: []pgsql.Join{{
 				Table: pgsql.TableReference{
